@@ -443,6 +443,28 @@ def rfcomm_seeds(live_dlci: int, new_dlci: int) -> list[Seed]:
     return S
 
 
+def rfcomm_negotiation_scripts(new_dlci: int) -> list[tuple]:
+    """Hostile but parseable parameter negotiation followed by real use of the link it negotiated: PN command for a
+    fresh DLCI (the victim has an echoing acceptor there) with every frame size N1 in {0..6, 23} x initial credits k in
+    {0, 1, 7}, then SABM, then data frames (with and without a credit grant) that the victim echoes under the negotiated
+    parameters, then DISC so the next script starts from a closed DLCI again."""
+    out = []
+    for n1 in (0, 1, 2, 3, 4, 5, 6, 23):
+        for k in (0, 1, 7):
+            for cl in (0xF0, 0x00):
+                pn = bytes([new_dlci, cl, 7, 0]) + struct.pack('<H', n1) + bytes([0, k])
+                frames = (
+                    rfcomm_frame(UIH, 0, 1, 0, rfcomm_mcc(0x20, 1, pn)),
+                    rfcomm_frame(SABM, new_dlci, 1, 1),
+                    rfcomm_frame(UIH, new_dlci, 1, 1, b'hello', 8),
+                    rfcomm_frame(UIH, new_dlci, 1, 0, b'w' * 30),
+                    rfcomm_frame(UIH, new_dlci, 1, 1, b'', 3),
+                    rfcomm_frame(DISC, new_dlci, 1, 1),
+                )
+                out.append((f'rfcomm.negotiate|n1={n1}+k={k}+cl={cl:02x}', 'dyn', frames))
+    return out
+
+
 RFCOMM_TYPES = {SABM, UA, DM, DISC, UIH, 0x03}
 
 # --- AT ------------------------------------------------------------------------
